@@ -439,7 +439,7 @@ Lemma open_chunk_x d tid bb i spsC m :
   (forall c', c' <> i -> hchunk_at b' c' = hchunk_at bb c') /\
   (b_chunks b', b_head b', b_ctab b', b_treeid b') = (b_chunks bb, b_head bb, b_ctab bb, b_treeid bb) /\
   ((forall h, tree_get_slot b' h = match last_upd h (rupds hf i recs) with Some x => x | None => tree_get_slot bb h end) \/
-   (i = fst tid /\ forall h, tree_get_slot b' h = tree_get_slot bb h)) /\
+   (i = fst tid /\ (0 <= snd tid)%Z /\ forall h, tree_get_slot b' h = tree_get_slot bb h)) /\
   ((hid_le tid (b_maxdumped bb) /\ (fst tid <= i)%nat) -> hid_le tid (b_maxdumped b')).
 Proof.
   cbv zeta. intros Hfiles Hcov HbW Hwb Hsp Hend Hkeys Hh0.
@@ -454,9 +454,10 @@ Proof.
   destruct (Z.of_nat nfile <=? startsp)%Z eqn:Eskip.
   - split; [exact C1|]. split; [exact C2|]. split; [exact C4|]. split; [injection Hcore1 as -> -> ->; now rewrite C7|].
     split; [|intros [Hle _]; eapply hid_le_trans; eassumption].
-    destruct (Nat.eq_dec i (fst tid)) as [Ei|Hni]; [right; split; [exact Ei|intros h; apply (core_tree b1 bb h C5)]|left].
-    (* not the tree's chunk: no hint file at all means no record at all *)
-    assert (Hs0 : startsp = 0%Z) by (unfold startsp; now replace (Nat.eqb i (fst tid)) with false by (symmetry; apply Nat.eqb_neq; exact Hni)).
+    destruct (Z.eq_dec startsp 0) as [Hs0|Hsn]; [left|right].
+    2:{ unfold startsp in Hsn, Eskip. destruct (Nat.eqb_spec i (fst tid)) as [Ei|Hni]; [|congruence].
+        split; [exact Ei|]. split; [lia|]. intros h. apply (core_tree b1 bb h C5). }
+    (* nothing to skip: no hint file at all means no record at all *)
     destruct C1 as (Hne & Hc & Hall).
     assert (Hrecs : recs = []).
     { unfold nfile, sps in Eskip. rewrite Hs0 in Eskip. revert Hne Hc Hall C3 Eskip. generalize (sps_at b1 i). intros S0 Hne Hc Hall C3 Eskip.
@@ -566,7 +567,7 @@ Lemma open_fold d tid spsC : forall n a bb,
   (forall c, (a <= c < a + n)%nat -> hcovL (sps_at b' c) c (recs_at bb c) /\ bound_from 0 (sps_at b' c) <= k_size (chunk_at bb c)) /\
   (forall c, ~ (a <= c < a + n)%nat -> hchunk_at b' c = hchunk_at bb c) /\
   ((forall h, tree_get_slot b' h = match last_upd h (Urange bb a n) with Some x => x | None => tree_get_slot bb h end) \/
-   (a = fst tid /\ (0 < n)%nat /\
+   (a = fst tid /\ (0 <= snd tid)%Z /\ (0 < n)%nat /\
     forall h, tree_get_slot b' h = match last_upd h (Urange bb (S a) (n - 1)) with Some x => x | None => tree_get_slot bb h end)) /\
   hid_le tid (b_maxdumped b').
 Proof.
@@ -593,10 +594,10 @@ Proof.
       * rewrite <- Hra, <- Hca. apply I2. lia.
     + intros c Hc. rewrite I3 by lia. apply O3. lia.
     + destruct I4 as [I4|(Eq & _)]; [|lia]. rewrite HU in I4.
-      destruct O5 as [O5|(Ea & O5)].
+      destruct O5 as [O5|(Ea & Esn & O5)].
       * left. intros h. rewrite I4, O5. unfold Urange. cbn [seq map List.concat]. rewrite last_upd_app.
         fold (Urange bb (S a) n). destruct (last_upd h (Urange bb (S a) n)); reflexivity.
-      * right. split; [exact Ea|]. split; [lia|]. intros h. rewrite I4, O5. replace (S n - 1)%nat with n by lia. reflexivity.
+      * right. split; [exact Ea|]. split; [exact Esn|]. split; [lia|]. intros h. rewrite I4, O5. replace (S n - 1)%nat with n by lia. reflexivity.
 Qed.
 
 Lemma check_fold d spsC : forall n a bb,
